@@ -64,7 +64,7 @@ theorem writes_within_dest_v1 (H1 : Bytes → Bytes) (ds : Nat) (fs : FS) (filem
 /-- a v1 single-file metafile `n/f` (piece length 4, `H1` = identity) in the example world
     (`Rebuild.Ex`: `/d`, `/s` exist, `/s/f` = 1 2 3): `/d/n` is created, `/s/f` copied to `/d/n/f` -/
 example : CleanPath [[100]] ∧ DestReady Ex.fs [[100]] ∧
-    matchV1 id 4096 Ex.fs Ex.fmap [[100]] 4 [[1,2,3]] [⟨[110,47,102], [102], 3, none⟩]
+    matchV1 id 4096 Ex.fs Ex.fmap [[100]] 4 [[1,2,3]] [⟨[110,47,102], [102], 3, none, false⟩]
       = ([Op.mkdir [[100],[110]], Op.copy [[115],[102]] [[100],[110],[102]]], [[110,47,102]]) := by
   decide
 
@@ -83,7 +83,7 @@ theorem writes_within_dest_v2 (rootOf : Bytes → Bytes) (ds : Nat) (fs : FS) (f
     model create `/d/n` and copy `/s/f` to `/d/n/f` only (`rootOf` = identity) -/
 example : CleanPath [[100]] ∧ DestReady Ex.fs [[100]] ∧
     matchV2 id 4096 Ex.fmap [[100]] Ex.fs
-      [⟨[46,46,47,102], [102], 3, some [1,2,3]⟩, ⟨[110,47,102], [102], 3, some [1,2,3]⟩]
+      [⟨[46,46,47,102], [102], 3, some [1,2,3], false⟩, ⟨[110,47,102], [102], 3, some [1,2,3], false⟩]
       = ([Op.mkdir [[100],[110]], Op.copy [[115],[102]] [[100],[110],[102]]], [[110,47,102]]) := by
   decide
 
@@ -121,50 +121,60 @@ theorem targets_within_dest (H1 rootOf : Bytes → Bytes) (ds : Nat) (fs : FS) (
 
 /-- a metafile whose name is the destination spelled with two slashes (`//d`) gets nothing written:
     v1 single file and v2 -/
-example : matchV1 id 4096 Ex.fs Ex.fmap [[100]] 4 [[1,2,3]] [⟨[47,47,100], [102], 3, none⟩] = ([], []) ∧
-    matchV2 id 4096 Ex.fmap [[100]] Ex.fs [⟨[47,47,100], [102], 3, some [1,2,3]⟩] = ([], []) := by decide
+example : matchV1 id 4096 Ex.fs Ex.fmap [[100]] 4 [[1,2,3]] [⟨[47,47,100], [102], 3, none, false⟩] = ([], []) ∧
+    matchV2 id 4096 Ex.fmap [[100]] Ex.fs [⟨[47,47,100], [102], 3, some [1,2,3], false⟩] = ([], []) := by decide
 
 /-- When `safe_join` rejects a file's path nothing is written for it and it is not counted (v1):
-    every counted file has an accepted destination; every copy goes to the accepted destination of
-    some file record; every created directory is a proper ancestor of such a destination; and if
-    all records are rejected the rebuild performs no operation at all and counts nothing. -/
+    every counted file is a non-padding record with an accepted destination; every copy goes to the
+    accepted destination of some non-padding file record; every created directory is a proper
+    ancestor of such a destination (padding entries – `attr = "p"` – are never copy targets and
+    never counted); and if all non-padding records are rejected the rebuild performs no operation
+    at all and counts nothing. -/
 theorem rejected_are_skipped_v1 (H1 : Bytes → Bytes) (ds : Nat) (fs : FS) (filemap : FileMap)
     (dest : Path) (pl : Nat) (pieces : List Bytes) (files : List FileRec) :
     let res := matchV1 H1 ds fs filemap dest pl pieces files
-    (∀ f ∈ res.2, ∃ r ∈ files, f = r.full ∧ (safeJoin dest r.full).isSome) ∧
-    (∀ src dst, Op.copy src dst ∈ res.1 → ∃ r ∈ files, safeJoin dest r.full = some dst) ∧
-    (∀ p, Op.mkdir p ∈ res.1 → ∃ r ∈ files, ∃ dst, safeJoin dest r.full = some dst ∧ p <+: dst ∧ p ≠ dst) ∧
-    ((∀ r ∈ files, safeJoin dest r.full = none) → res.1 = [] ∧ res.2 = []) := by
+    (∀ f ∈ res.2, ∃ r ∈ files, f = r.full ∧ (safeJoin dest r.full).isSome ∧ r.pad = false) ∧
+    (∀ src dst, Op.copy src dst ∈ res.1 → ∃ r ∈ files, r.pad = false ∧ safeJoin dest r.full = some dst) ∧
+    (∀ p, Op.mkdir p ∈ res.1 → ∃ r ∈ files, r.pad = false ∧
+      ∃ dst, safeJoin dest r.full = some dst ∧ p <+: dst ∧ p ≠ dst) ∧
+    ((∀ r ∈ files, r.pad = false → safeJoin dest r.full = none) → res.1 = [] ∧ res.2 = []) := by
   intro res
   have run := matchV1_run H1 ds fs filemap dest pl pieces files
   have hc := matchV1_counted H1 ds fs filemap dest pl pieces files
-  have h2 : ∀ src dst, Op.copy src dst ∈ res.1 → ∃ r ∈ files, safeJoin dest r.full = some dst := by
+  have h2 : ∀ src dst, Op.copy src dst ∈ res.1 →
+      ∃ r ∈ files, r.pad = false ∧ safeJoin dest r.full = some dst := by
     intro src dst h
     obtain ⟨_, _, g⟩ := run.copy_mem h
-    obtain ⟨r, hr, hsj, _⟩ := GoodV1.file g
-    exact ⟨r, hr, hsj⟩
-  have h3 : ∀ p, Op.mkdir p ∈ res.1 →
-      ∃ r ∈ files, ∃ dst, safeJoin dest r.full = some dst ∧ p <+: dst ∧ p ≠ dst := by
+    exact GoodV1.nonpad g
+  have h3 : ∀ p, Op.mkdir p ∈ res.1 → ∃ r ∈ files, r.pad = false ∧
+      ∃ dst, safeJoin dest r.full = some dst ∧ p <+: dst ∧ p ≠ dst := by
     intro p h
     obtain ⟨_, src, dst, _, g, hp1, hp2⟩ := run.mkdir_mem h
-    obtain ⟨r, hr, hsj, _⟩ := GoodV1.file g
-    exact ⟨r, hr, dst, hsj, hp1, hp2⟩
+    obtain ⟨r, hr, hpad, hsj⟩ := GoodV1.nonpad g
+    exact ⟨r, hr, hpad, dst, hsj, hp1, hp2⟩
   refine ⟨hc, h2, h3, ?_⟩
   intro hall
   constructor
   · apply List.eq_nil_iff_forall_not_mem.mpr
     intro op hop
     cases op with
-    | mkdir p => obtain ⟨r, hr, dst, hsj, _⟩ := h3 p hop; rw [hall r hr] at hsj; cases hsj
-    | copy src dst => obtain ⟨r, hr, hsj⟩ := h2 src dst hop; rw [hall r hr] at hsj; cases hsj
+    | mkdir p => obtain ⟨r, hr, hpad, dst, hsj, _⟩ := h3 p hop; rw [hall r hr hpad] at hsj; cases hsj
+    | copy src dst => obtain ⟨r, hr, hpad, hsj⟩ := h2 src dst hop; rw [hall r hr hpad] at hsj; cases hsj
   · apply List.eq_nil_iff_forall_not_mem.mpr
     intro f hf
-    obtain ⟨r, hr, _, hs⟩ := hc f hf
-    rw [hall r hr] at hs; cases hs
+    obtain ⟨r, hr, _, hs, hpad⟩ := hc f hf
+    rw [hall r hr hpad] at hs; cases hs
+
+/-- a metafile with a padding entry (`Rebuild.Ex.filesP`: `T/a`, the padding entry `T/.pad/1`,
+    `T/b`; piece length 4, pieces 1 2 3 0 | 5 6): the files are restored, nothing is created for the
+    padding entry and it is not counted -/
+example : matchV1 id 4096 Ex.fsP Ex.fmapP [[100]] 4 [[1,2,3,0],[5,6]] Ex.filesP
+    = ([Op.mkdir [[100],[84]], Op.copy [[115],[97]] [[100],[84],[97]], Op.copy [[115],[98]] [[100],[84],[98]]],
+       [[84,47,97], [84,47,98]]) := by decide
 
 /-- a v1 single-file metafile named `../f` whose piece matches `/s/f`: nothing is written or
     counted (`H1` = identity, piece length 4) -/
-example : matchV1 id 4096 Ex.fs Ex.fmap [[100]] 4 [[1,2,3]] [⟨[46,46,47,102], [102], 3, none⟩] = ([], []) := by
+example : matchV1 id 4096 Ex.fs Ex.fmap [[100]] 4 [[1,2,3]] [⟨[46,46,47,102], [102], 3, none, false⟩] = ([], []) := by
   decide
 
 /-- When `safe_join` rejects a file's path nothing is written for it and it is not counted
@@ -205,7 +215,7 @@ theorem rejected_are_skipped_v2 (rootOf : Bytes → Bytes) (ds : Nat) (fs : FS) 
 
 /-- a v2 metafile with the absolute name `/s` and file `f`, whose root matches `/s/f`: rejected,
     nothing is written or counted -/
-example : matchV2 id 4096 Ex.fmap [[100]] Ex.fs [⟨[47,115,47,102], [102], 3, some [1,2,3]⟩] = ([], []) := by
+example : matchV2 id 4096 Ex.fmap [[100]] Ex.fs [⟨[47,115,47,102], [102], 3, some [1,2,3], false⟩] = ([], []) := by
   decide
 
 end TorrentVerif.Props.C19
